@@ -180,6 +180,30 @@ def src_writes(unit, name):
     return sorted(set(res))
 
 
+# POSIX.1-2017 2.9.1: functions that need not be thread-safe (process-wide hidden state inside libc)
+UNSAFE_LIBC = {'asctime', 'basename', 'catgets', 'crypt', 'ctime', 'dbm_fetch', 'dirname', 'dlerror', 'drand48', 'encrypt',
+               'endgrent', 'endpwent', 'endutxent', 'getdate', 'getenv', 'getgrent', 'getgrgid', 'getgrnam', 'gethostent',
+               'getlogin', 'getnetent', 'getopt', 'getprotoent', 'getpwent', 'getpwnam', 'getpwuid', 'getservent',
+               'getutxent', 'gmtime', 'hcreate', 'hdestroy', 'hsearch', 'inet_ntoa', 'l64a', 'lgamma', 'lgammaf', 'lgammal',
+               'localeconv', 'localtime', 'lrand48', 'mrand48', 'nftw', 'nl_langinfo', 'ptsname', 'putenv', 'rand', 'srand',
+               'random', 'srandom', 'readdir', 'setenv', 'setgrent', 'setkey', 'setlocale', 'setpwent', 'setutxent',
+               'strerror', 'strsignal', 'strtok', 'system', 'ttyname', 'unsetenv', 'wcstombs', 'wctomb', 'tmpnam', 'tempnam',
+               'signal', 'sigaction', 'atexit', 'umask', 'chdir'}
+
+
+def unsafe_libc_refs(objs):
+    res = []
+    for u in S.UNITS:
+        seen = set()
+        for sec, sym in S.relocs(objs[u]):
+            if sec.startswith('.debug') or sec.startswith('.eh_frame'):
+                continue
+            if sym in UNSAFE_LIBC and (sec, sym) not in seen:
+                seen.add((sec, sym))
+                res.append((u, S.place(sec), sym))
+    return sorted(res)
+
+
 def scan():
     objs = S.o0_objects()
     out = []
@@ -196,6 +220,7 @@ def scan():
                             writers=sorted(a.get('write', ())), addr_takers=sorted(a.get('addr', ())),
                             readers=sorted(a.get('read', ())), data_refs=sorted(a.get('data', ())),
                             src_writes=src_writes(u, name)))
+    stats['unsafe_libc'] = unsafe_libc_refs(objs)
     return out, stats
 
 
@@ -225,7 +250,9 @@ def generate(path=None):
                          'true' if o['tls'] else 'false', coq_list(o['writers']), coq_list(o['src_writes']),
                          coq_list(o['addr_takers']), coq_list(o['readers']), coq_list(o['data_refs'])))
     L.append(';\n'.join(items))
-    L += ['].', '']
+    L += ['].', '', '(* (unit, function, callee): references to libc functions that POSIX does not require to be thread-safe *)',
+          'Definition unsafe_libc_refs : list (string * string * string) := [',
+          ';\n'.join('  (%s, %s, %s)' % tuple(map(coq_str, x)) for x in stats['unsafe_libc']), '].', '']
     txt = '\n'.join(L)
     old = open(path).read() if os.path.exists(path) else None
     if old != txt:
